@@ -47,6 +47,8 @@ MUTS = {
  "N6-getorcreate-without-recheck": ("ds/shrinkingmap/shrinkingmap.go",
     "\ts.mutex.RLock()\n\tif existingValue, exists := s.m[key]; exists {\n\t\ts.mutex.RUnlock()\n\n\t\treturn existingValue, false\n\t}\n\ts.mutex.RUnlock()\n\n\ts.mutex.Lock()\n\tdefer s.mutex.Unlock()\n\n\tif existingValue, exists := s.m[key]; exists {\n\t\treturn existingValue, false\n\t}\n\n\tvalue = defaultValueFunc()",
     "\tif existingValue, exists := s.Get(key); exists {\n\t\treturn existingValue, false\n\t}\n\n\ts.mutex.Lock()\n\tdefer s.mutex.Unlock()\n\n\tvalue = defaultValueFunc()"),
+ "N7-replace-second-read-of-live-argument": ("ds/reactive/set_impl.go",
+    "\ts.value.Replace(newElements)\n", "\ts.value.Replace(elements)\n"),
  "M12-replace-reports-everything": ("ds/reactive/set_impl.go",
     "addedElements := newElements.Filter(func(element ElementType) bool { return !s.value.Has(element) })",
     "addedElements := newElements.Filter(func(element ElementType) bool { return true })"),
